@@ -707,6 +707,10 @@ def fam_hexital(rng, pid, count):
                           pre_choices=(0, 1, 2, n), forms=[rng.choice(["obj", "dict", "settings"]) for _ in cfgs],
                           form=rng.choice(["candle", "candle", "dict"]))
         sc["clause_props"] = {"exc": ["C08"], "stage": ["C08"], "def": ["C08"], "value": ["C08"]}
+        if fill and sc["prog"][0][1] > 0 and any(c.timeframe and c.timeframe != base_tf for c in cfgs):
+            # own scenario class: with Hexital-level gap filling the default candles a member's manager
+            # is built from contain inserted candles, which a coarser member merges like trades
+            sc["class"] = "hexital_fill_preloaded_timeframe"
         if life is not None and sc["prog"][0][1] > 0 and any(c.timeframe and c.timeframe != base_tf for c in cfgs):
             # own scenario class (DESIGN.md 5.2): a Hexital built WITH candles and a lifespan creates a
             # member's timeframe manager from the already trimmed default candles
